@@ -38,7 +38,7 @@ func runCmpSubject(p *Prog, r *Report) {
 			if full != "sort.Slice" && full != "sort.SliceStable" || len(call.Args) != 2 {
 				return true
 			}
-			lit, ok := ast.Unparen(call.Args[1]).(*ast.FuncLit)
+			lit, ok := comparatorLit(fn, call.Args[1])
 			if !ok {
 				return true
 			}
@@ -288,26 +288,71 @@ func runKeyCanonical(p *Prog, r *Report) {
 			continue
 		}
 		info := fn.Info()
-		// the marshalled value
+		// the marshalled value: a local that is filled field by field, or a literal
 		var subject string
+		var subjectLit *ast.CompositeLit
+		var marshal *ast.CallExpr
 		ast.Inspect(fn.Body, func(m ast.Node) bool {
 			if c, ok := m.(*ast.CallExpr); ok && calleeFull(info, c) == "encoding/json.Marshal" && len(c.Args) == 1 {
-				subject = pathOf(info, c.Args[0])
+				marshal = c
+				a := ast.Unparen(c.Args[0])
+				if u, ok := a.(*ast.UnaryExpr); ok && u.Op == token.AND {
+					a = ast.Unparen(u.X)
+				}
+				if cl, ok := a.(*ast.CompositeLit); ok {
+					subjectLit = cl
+				} else {
+					subject = pathOf(info, a)
+					if id, ok := a.(*ast.Ident); ok {
+						if def := fn.SingleDef(info.ObjectOf(id)); def != nil {
+							d := ast.Unparen(def)
+							if u, ok := d.(*ast.UnaryExpr); ok && u.Op == token.AND {
+								d = ast.Unparen(u.X)
+							}
+							if cl, ok := d.(*ast.CompositeLit); ok {
+								subjectLit = cl
+							}
+						}
+					}
+				}
 			}
 			return true
 		})
-		if subject == "" {
+		if subject == "" && subjectLit == nil {
 			r.Add("E11.key-canonical", fn.Name, "json.Marshal", p.Pos(fn.Decl), Undecided, "no json.Marshal call found", true)
 			continue
 		}
 		// the struct's slice fields must each be stored+sorted or never stored
 		stored := map[string]bool{}
+		if subjectLit != nil {
+			for _, el := range subjectLit.Elts {
+				kv, ok := el.(*ast.KeyValueExpr)
+				if !ok {
+					continue
+				}
+				k, ok := kv.Key.(*ast.Ident)
+				if !ok {
+					continue
+				}
+				if _, isSlice := info.TypeOf(kv.Value).Underlying().(*types.Slice); !isSlice {
+					continue
+				}
+				n++
+				stored[k.Name] = true
+				construct := k.Name + ": " + cmpText(kv.Value)
+				if sortedValue(fn, kv.Value, marshal, 0) {
+					r.Add("E11.key-canonical", fn.Name, construct, p.Pos(kv), OK, "the stored value is sorted before the value is marshalled", true)
+				} else {
+					r.Add("E11.key-canonical", fn.Name, construct, p.Pos(kv), Violated, "stored into the marshalled value without being sorted: the key depends on the order the dependency keys were listed in", true)
+				}
+			}
+		}
 		ast.Inspect(fn.Body, func(m ast.Node) bool {
 			as, ok := m.(*ast.AssignStmt)
-			if !ok {
+			if !ok || subject == "" {
 				return true
 			}
-			for _, l := range as.Lhs {
+			for i, l := range as.Lhs {
 				sel, ok := ast.Unparen(l).(*ast.SelectorExpr)
 				if !ok || pathOf(info, sel.X) != subject {
 					continue
@@ -332,14 +377,16 @@ func runKeyCanonical(p *Prog, r *Report) {
 						}
 						ast.Inspect(nd, func(k ast.Node) bool {
 							if c, ok := k.(*ast.CallExpr); ok {
-								full := calleeFull(info, c)
-								if (full == "sort.Slice" || full == "sort.SliceStable" || full == "sort.Sort" || full == "sort.Stable") && len(c.Args) >= 1 && pathOf(info, c.Args[0]) == lp {
+								if isSortingCall(info, c) && pathOf(info, c.Args[0]) == lp {
 									sorted = true
 								}
 							}
 							return true
 						})
 					}
+				}
+				if !sorted && len(as.Lhs) == len(as.Rhs) && sortedValue(fn, as.Rhs[i], as, 0) {
+					sorted = true
 				}
 				construct := exprStr(l) + " = " + cmpText(as.Rhs[0])
 				if sorted {
@@ -370,4 +417,81 @@ func runKeyCanonical(p *Prog, r *Report) {
 var lookupConsumerExceptions = map[string]string{
 	"decoder/internal/schemahelper.blockSchema.DependentBodySchema": "the producer itself: a nested lookup that is not fully successful is what makes the overall result 'partially successful'",
 	"decoder.(*PathDecoder).decodeReferenceTargetsForBody":          "the data type of a dependent-body-as-data target is only inferred from a completely resolved dependent body (reviewed: with a partial lookup the target is not typed, the block's nested targets are still collected through the merged schema)",
+}
+
+func isSortingCall(info *types.Info, c *ast.CallExpr) bool {
+	switch calleeFull(info, c) {
+	case "sort.Slice", "sort.SliceStable", "sort.Sort", "sort.Stable", "slices.SortFunc", "slices.SortStableFunc", "sort.Strings", "sort.Ints", "slices.Sort":
+		return len(c.Args) >= 1
+	}
+	return false
+}
+
+// sortedValue: e, evaluated at `at`, is a slice that was sorted: a local on which a sorting
+// call dominates `at`, or the result of a module function whose every non-nil result is one.
+func sortedValue(fn *Func, e ast.Expr, at ast.Node, depth int) bool {
+	if depth > 2 {
+		return false
+	}
+	info := fn.Info()
+	switch x := ast.Unparen(e).(type) {
+	case *ast.Ident:
+		o := info.ObjectOf(x)
+		if o == nil {
+			return false
+		}
+		found := false
+		ast.Inspect(fn.Body, func(k ast.Node) bool {
+			if _, isLit := k.(*ast.FuncLit); isLit {
+				return false
+			}
+			if c, ok := k.(*ast.CallExpr); ok && isSortingCall(info, c) && isIdentObj(info, c.Args[0], o) && fn.Dominates(c, at) {
+				// no re-assignment of the local between the sort and the use
+				stale := false
+				for _, asn := range fn.Assignments(o) {
+					if fn.Dominates(c, asn) && asn.Pos() > c.Pos() && asn.Pos() < at.Pos() {
+						stale = true
+					}
+				}
+				if !stale {
+					found = true
+				}
+			}
+			return true
+		})
+		return found
+	case *ast.CallExpr:
+		cf := calleeOf(info, x)
+		if cf == nil {
+			return false
+		}
+		t := fn.Prog.FuncOf[cf]
+		if t == nil || t.Body == nil {
+			return false
+		}
+		n, bad := 0, false
+		ast.Inspect(t.Body, func(k ast.Node) bool {
+			if _, isLit := k.(*ast.FuncLit); isLit {
+				return false
+			}
+			ret, ok := k.(*ast.ReturnStmt)
+			if !ok {
+				return true
+			}
+			if len(ret.Results) != 1 {
+				bad = true
+				return true
+			}
+			if isNilIdent(t.Info(), ret.Results[0]) {
+				return true
+			}
+			n++
+			if !sortedValue(t, ret.Results[0], ret, depth+1) {
+				bad = true
+			}
+			return true
+		})
+		return n > 0 && !bad
+	}
+	return false
 }
